@@ -39,7 +39,8 @@ Inductive handler :=
 | HRemM (l : N) (k : Z)
 | HClrM (l : N)
 | HGetM (l : N) (k : Z)                (* get(l, k).and_then(|v| effect(record (EGotM l k v))) *)
-| HSeq (a b : handler).                (* a.followed_by(b) *)
+| HSeq (a b : handler)                 (* a.followed_by(b) *)
+| HThen (a b : handler).               (* a.and_then(|()| b): the AndThen machine over an arbitrary first half *)
 
 (* the lifecycle of the agent: the bodies run after the lifecycle event itself has been recorded *)
 Record lifecycle := {
@@ -129,12 +130,12 @@ Inductive hstate :=
 | SDone                                 (* stepping again is an error *)
 | SBindSet (dst : N) (v : Z)            (* AndThen::Second of HCopy *)
 | SBindRec (e : event)                  (* AndThen::Second of HGetV / HGetM *)
-| SFirst (a : hstate) (b : handler)     (* FollowedBy::First *)
-| SSecond (b : hstate).                 (* FollowedBy::Second *)
+| SFirst (a : hstate) (b : handler)     (* FollowedBy::First / AndThen::First: the two machines step alike *)
+| SSecond (b : hstate).                 (* FollowedBy::Second / AndThen::Second *)
 
 Fixpoint init (h : handler) : hstate :=
   match h with
-  | HSeq a b => SFirst (init a) b
+  | HSeq a b | HThen a b => SFirst (init a) b
   | _ => SLeaf h
   end.
 
@@ -155,7 +156,7 @@ Fixpoint step (h : hstate) (st : store) (tr : list event)
   | SLeaf (HRemM l k) => (RDone, Some (IMap l), SDone, do_remove st l k, tr)
   | SLeaf (HClrM l) => (RDone, Some (IMap l), SDone, do_clear st l, tr)
   | SLeaf (HGetM l k) => (RCont, None, SBindRec (EGotM l k (zlookup k (m_content (mget st l)))), st, tr)
-  | SLeaf (HSeq a b) => (RFail, None, SDone, st, tr)           (* not produced by [init] *)
+  | SLeaf (HSeq a b) | SLeaf (HThen a b) => (RFail, None, SDone, st, tr)           (* not produced by [init] *)
   | SDone => (RFail, None, SDone, st, tr)
   | SBindSet dst v => (RDone, Some (IVal dst), SDone, do_set st dst v, tr)
   | SBindRec e => (RDone, None, SDone, st, tr ++ [e])
@@ -225,7 +226,7 @@ Fixpoint eval (fuel : nat) (lc : lifecycle) (h : handler) (st : store) (tr : lis
       | HRemM l k => conseq (eval f lc) lc (Some (IMap l)) (do_remove st l k) tr
       | HClrM l => conseq (eval f lc) lc (Some (IMap l)) (do_clear st l) tr
       | HGetM l k => Some (Ok, st, tr ++ [EGotM l k (zlookup k (m_content (mget st l)))])
-      | HSeq a b =>
+      | HSeq a b | HThen a b =>
           match eval f lc a st tr with
           | Some (Ok, st1, tr1) => eval f lc b st1 tr1
           | ow => ow
